@@ -16,7 +16,17 @@
 #include <stdio.h>
 #include <stdlib.h>
 static void vh_replay_init(void);
-#define HARNESS_BEGIN()   vh_replay_init()
+static void vh_replay_random(unsigned seed);
+static unsigned vh_seed;
+/* leave a non-zero pattern in the stack area the library calls are about to use, so that a result
+   computed from memory the library never initialised shows up in the replay as it does in the model
+   (run.sh also sets MALLOC_PERTURB_ for the heap) */
+static __attribute__((noinline)) void vh_dirty_stack(void)
+{
+    volatile uint8_t junk[32768];
+    for (unsigned i_ = 0; i_ < sizeof junk; i_++) junk[i_] = (uint8_t)(0xA5 ^ i_);
+}
+#define HARNESS_BEGIN()   do { vh_replay_init(); if (vh_seed) vh_replay_random(vh_seed); vh_dirty_stack(); } while (0)
 #define SYM_U8A(a)        ((void)0)
 #define SYM_U16A(a)       ((void)0)
 #define SYM_U32A(a)       ((void)0)
@@ -26,7 +36,7 @@ static void vh_replay_init(void);
 #define CHECK(c,msg)      do { if (!(c)) { printf("REPLAY-FAIL: %s\n", msg); fflush(stdout); exit(1); } } while (0)
 #define ASSUME(c)         do { if (!(c)) { printf("REPLAY-ASSUME-FALSE: %s\n", #c); fflush(stdout); exit(3); } } while (0)
 #define WITNESS_POINT()   ((void)0)
-#define VH_MAIN           int main(void) { harness(); printf("REPLAY-PASS\n"); return 0; }
+#define VH_MAIN           int main(int argc, char **argv) { if (argc > 1) vh_seed = (unsigned)atoi(argv[1]); harness(); printf("REPLAY-PASS\n"); return 0; }
 #else
 uint8_t  nondet_u8(void);
 uint16_t nondet_u16(void);
